@@ -106,7 +106,7 @@ class Constraint(object):
             else:
                 raise Violation("%s token rejected by %s" %
                                 (tokenNames[typebyte], self.name))
-        if limit and size > limit:
+        if limit is not None and size > limit:
             raise Violation("%s token too large: %d>%d" %
                             (tokenNames[typebyte], size, limit))
 
